@@ -1,3 +1,4 @@
+import Ebu.Spec.Flow
 import Ebu.Generated.Consts
 import Ebu.Props.C03
 import Ebu.Proofs.PersistConc
@@ -138,5 +139,10 @@ theorem offset_formats_match_source :
     Ebu.Generated.Consts.sqliteParseBase = 10 ∧ Ebu.Generated.Consts.sqliteParseBits = 64 ∧
     fmt20 = digitsW Ebu.Generated.Consts.memOffsetWidth := by
   refine ⟨by decide, by decide, by decide, by decide, by decide, by decide, rfl⟩
+
+/-! ### obligations on the control flow of the CURRENT source (`Ebu/Generated/Flow.lean`, regenerated from /repo on every run) -/
+
+/-- OBLIGATION: `MemoryStore`: Append reserves the offset (formatted from the counter) and inserts the record under the write lock; Read keeps the events with `offset > from` (all from the oldest offset) in log order and stops when the limit is reached; SaveOffset writes under the write lock – what M3's memory store transcribes -/
+theorem flow_memory_store_shape : Ebu.Flow.memoryStoreShape = true := by decide +kernel
 
 end Ebu.Props.C10
